@@ -36,17 +36,24 @@ Db0 == << [key |-> <<"g", 1>>, dyn |-> FALSE, cls |-> << [id |-> 1, head |-> G(A
 CONSTANTS N,        \* maximal length of the inner goal
           OUTER,    \* TRUE: also run every skeleton behind an older choice point g(A)
           AFTER,    \* TRUE: also continue after the OUTER catch/3 has exited (both catches exited) with a throw
-          PRE       \* TRUE: also bind the outer catcher variable before the call
+          PRE,      \* TRUE: also bind the outer catcher variable before the call
+          INCL      \* TRUE: the inner catch/3 sits in a CLAUSE, followed by a cut:  cc(z).  cc(X) :- catch(G1, C1, R1), !, w(in).
+\* the clause form: only X is shared with the query, every other variable of G1, C1, R1 is local to the clause
+CcBody(g1, c1, r1) == Conj2(C("catch", <<Conj(g1), c1, r1>>), Conj2(A("!"), W(A("in"))))
+CcClause(g1, c1, r1) == LET t == C(":-", <<C("cc", <<X>>), CcBody(g1, c1, r1)>>) vs == TermVars(t) r == Renum(t, vs, 0)
+                        IN [id |-> 20, head |-> r[3][1], body |-> r[3][2], nv |-> Len(vs)]
+DbOf(g1, c1, r1) == IF INCL THEN Db0 \o << [key |-> <<"cc", 1>>, dyn |-> FALSE, cls |-> << [id |-> 21, head |-> C("cc", <<A("z")>>), body |-> TrueA, nv |-> 0], CcClause(g1, c1, r1) >>] >>      \* the clause with the catch is the LAST one
+                    ELSE Db0
 
-Inner(g1, c1, r1, k, c2) == C("catch", << Conj2(C("catch", <<Conj(g1), c1, r1>>), k), c2, W(C("r2", <<Y, Z>>)) >>)
+Inner(g1, c1, r1, k, c2) == C("catch", << Conj2(IF INCL THEN C("cc", <<X>>) ELSE C("catch", <<Conj(g1), c1, r1>>), k), c2, W(C("r2", <<Y, Z>>)) >>)
 Queries == { Inner(g1, c1, r1, k, c2) : g1 \in Seqs(N), c1 \in Catchers1, r1 \in Recov1, k \in Conts, c2 \in Catchers2 }
 \* continuations that run after the outer catch/3 has exited, too: nothing may intercept their balls
 Conts2 == { Thr(B1), Thr(B(X)), Conj2(A("fail"), A("true")) }
 Queries2 == Queries \cup (IF AFTER THEN { Conj2(q, k2) : q \in Queries, k2 \in Conts2 } ELSE {})
 AllQueries == Queries2 \cup (IF OUTER THEN { Conj2(G(V(8)), q) : q \in Queries2 } ELSE {})
 
-VARIABLES st, hist, q
-gvars == <<st, hist, q>>
+VARIABLES st, hist, q, db
+gvars == <<st, hist, q, db>>
 
 \* (the components are enumerated, not the set AllQueries: building and normalising a set of 10^5 deep terms takes TLC longer
 \* than exploring them)
@@ -62,17 +69,18 @@ GInit == \E g1 \in Seqs(N), c1 \in Catchers1, r1 \in Recov1, k \in Conts, c2 \in
                 q1 == IF k2 = NoK2 THEN q0 ELSE Conj2(q0, k2)
                 q2 == IF pb = NoK2 THEN q1 ELSE Conj2(C("=", <<V(5), pb>>), q1)
             IN /\ q = (IF o THEN Conj2(G(V(8)), q2) ELSE q2)
-               /\ st = InitStateX(Db0, q, 8, 9)
+               /\ db = DbOf(g1, c1, r1)
+               /\ st = InitStateX(db, q, 8, 9)
                /\ hist = <<>>
 
 GNext == /\ ~Terminal(st)
          /\ \E t \in Steps(st) : /\ ~(st.status = "answer" /\ t.status = "closed")
                                  /\ st' = t
                                  /\ hist' = IF t.ev # NoEv THEN Append(hist, t.ev) ELSE hist
-         /\ UNCHANGED q
+         /\ UNCHANGED <<q, db>>
 
 GSpec == GInit /\ [][GNext]_gvars
-Emit == Judged(st) => PrintT("CASE " \o ToJson([db |-> Db0, query |-> q, qv |-> 8, events |-> hist]))
+Emit == Judged(st) => PrintT("CASE " \o ToJson([db |-> db, query |-> q, qv |-> 8, events |-> hist]))
 Bound == Len(hist) < 120 /\ Len(st.bind) < 400
 
 \* --- U1: properties of the machine ---
